@@ -11,7 +11,7 @@ from .c03 import game_constants, chain_tree, wide_tree
 
 SCOPE = {"solve", "named", "info"}
 REL = 1e-7
-N_QUICK = 36
+N_QUICK = 40
 N_THOROUGH = 600
 HARNESS_JOBS = 8
 RULE = ("a broad collection of random and adversarial perfect-recall games x methods {Sampled, External} x the five presets x "
@@ -71,12 +71,16 @@ def generate(rng, tier, n):
         multi, _ = infosets_of(t)
         if len(multi[1]) + len(multi[2]) < 2:
             continue
-        if not live and rng.random() < 0.15:
+        tiny = False
+        if not live and (len(cases) % 6 == 3 or rng.random() < 0.08):
             from ..solvers import tiny_unit
-            t, _unit = tiny_unit(rng, t)           # the same game in a far-out payoff unit
+            t, _unit = tiny_unit(rng, t)           # the same game in a far-out payoff unit (on a fixed schedule, both methods)
+            tiny = True
         if not live and st.get("chance", 0) >= 1 and rng.random() < 0.2:
             live = True                            # the production samplers themselves, on games with chance nodes
         method = "external" if (live and st.get("chance", 0) == 0) else rng.choice(["sampled", "external"] + (["sampled"] * 3 if early else []))
+        if tiny and len(cases) % 6 == 3:
+            method = ["external", "sampled"][(len(cases) // 6) % 2]
         preset = rng.choice(PRESETS)
         threads = rng.choice([1, 2, 2, 4])
         cb = CaseBuilder(cid, t, {"stats": st, "method": method, "preset": preset, "threads": threads})
